@@ -51,6 +51,9 @@ impl DecimalParser {
 
     pub fn copy_digits<'b>(self, buffer: &'b mut [u8], s: &[u8]) -> Result<&'b str> {
         use DecimalParser::*;
+        if !s.iter().any(u8::is_ascii_digit) {
+            fail!("Invalid decimal: no digits found");
+        }
         match self {
             IntegerOnly(precision, scale) => {
                 copy_digits_integer_only(buffer, s, precision, scale, false)
